@@ -2,7 +2,7 @@
    Statements only; proofs: CompositeProofs.v.  Inner solvers are abstract functions. *)
 From Amgcl Require Import Scalar QcInst Vec Crs Kernels KernelsProofs MatOps Adapters Composite CompositeProofs CompositeProofs2
   CompositeProofs3 CompositeProofs4 CompositeProofs5 CompositeExamples
-  Cpr CprProofs CprProofs2 CprProofs3 CprProofs4 CprProofs5 CprProofs6 CprProofs7.
+  Cpr CprProofs CprProofs2 CprProofs3 CprProofs4 CprProofs5 CprProofs6 CprProofs7 CprDrs CprProofs8.
 Local Open Scope S_scope.
 
 Section Ring.
@@ -108,10 +108,7 @@ Theorem C18_sub_block_shape (K : crs S) (mask : list bool) (rp cp : bool) :
   wf K = true -> nrows K = length mask -> ncols K = length mask ->
   wf (sub_block K mask rp cp) = true /\ nrows (sub_block K mask rp cp) = count_of rp mask /\
   ncols (sub_block K mask rp cp) = count_of cp mask.
-Proof.
-  intros H1 H2 H3. split; [exact (sub_block_wf K mask rp cp H1 H2 H3)|].
-  split; [exact (sub_block_nrows K mask rp cp H2)|exact (sub_block_ncols K mask rp cp)].
-Qed.
+Proof. exact (sub_block_shape K mask rp cp). Qed.
 
 (* gather after scatter is the identity as well (x2u u2x = I, x2p p2x = I, x2u p2x = 0, ...) *)
 Theorem C18_gather_scatter (mask : list bool) (u p : vec S) :
@@ -320,9 +317,7 @@ Theorem C18_cpr_constructor_on_sorted_input (S : Scalar) B active (K : crs S) (j
   Forall (fun r => sorted_strict r = true) (rows K) ->
   cpr_make B active K junk = cpr_setup B active K junk /\
   cprb_make B active (to_gcrs (block_adapter B (crs_view K))) junk = cprb_setup B active (to_gcrs (block_adapter B (crs_view K))) junk.
-Proof.
-  intros HB Hs. split; [exact (cpr_make_sorted B active K junk (strict_all_weak _ Hs))|exact (cprb_make_block_view B active K junk HB Hs)].
-Qed.
+Proof. exact (cpr_constructor_on_sorted_input B active K junk). Qed.
 Print Assumptions C18_cpr_constructor_on_sorted_input.
 
 Section Ring3.
@@ -387,7 +382,7 @@ Theorem C18_cpr_weights_first_row_of_inverse B np (K : crs S) (junk : vec S) ip 
   forall j, j < B ->
   sumn (fun i => vget (cpr_weights B (np * B) K true junk ip) i * mget K (ip * B + i) (ip * B + j)) B
   = if Nat.eqb j 0 then s1 else s0.
-Proof. intros H1 H2. exact (cpr_weights_first_row Sft B np K junk ip H1 H2 (cpr_invert_ok_all Sft B)). Qed.
+Proof. exact (cpr_weights_first_row_all Sft B np K junk ip). Qed.
 End Field3.
 
 (* closed at the exact rationals *)
@@ -426,6 +421,28 @@ Theorem C18_cpr_block_scalar_same_operator_Qc (B nb : nat) (K : crs QcS) (junk :
   = cpr_operator K (cpr_setup B 0 K junk) sprecond pprecond f.
 Proof. exact (C18_cpr_block_scalar_same_operator QcS QcS_ring (fun x => eq_refl) B nb K junk sprecond pprecond f). Qed.
 Print Assumptions C18_cpr_block_scalar_same_operator_Qc.
+
+(* the REPAIRED block-valued init() (Cpr.cprb_setup_f: entries of the active rows in inactive block
+   columns are skipped, as in the scalar variant; fix proposed for the findings
+   C18-cpr(-_drs)-block-active-rows-illformed-pressure-matrix; the harness compares with this model
+   when the tree under test contains the repair) builds the same operators as the original one
+   for the block view of a well-formed square matrix with all rows active, so
+   C18_cpr_block_scalar_same_operator holds for it too (any Scalar) *)
+Theorem C18_cpr_repaired_block_init_same_on_full_range (S : Scalar) B nb (K : crs S) (junk : vec S) : 0 < B ->
+  wf K = true -> nrows K = (nb * B)%nat -> ncols K = (nb * B)%nat ->
+  let Kb := to_gcrs (block_adapter B (crs_view K)) in
+  cprb_setup_f B 0 Kb junk = cprb_setup B 0 Kb junk.
+Proof. exact (cprb_setup_f_block_view B nb K junk). Qed.
+Print Assumptions C18_cpr_repaired_block_init_same_on_full_range.
+
+(* the REPAIRED cpr_drs::partial_update(K, true) (first_scalar_pass(K, false) no longer touches the
+   absent App; fix proposed for C18-cpr_drs-partial-update-null-App) with the matrix the
+   preconditioner was built from returns the same operators (any Scalar) *)
+Theorem C18_cprdrs_repaired_partial_update_same (S : Scalar) B active (K : crs S) (eps_dd eps_ps : S) (weights : vec S) :
+  drs_partial_update B active (drs_make B active K eps_dd eps_ps weights) K eps_dd eps_ps weights true
+  = drs_make B active K eps_dd eps_ps weights.
+Proof. exact (drs_partial_update_same B active K eps_dd eps_ps weights). Qed.
+Print Assumptions C18_cprdrs_repaired_partial_update_same.
 
 (* NOT THEOREMS (the unchanged code violates them, or nothing is stated):
    A3-block+active  for active_rows < n the block-valued construction does NOT agree with the scalar
